@@ -17,7 +17,10 @@ def handle : Handler := fun j => do
   -- the threads of this run: the operations, the watcher goroutine, and the refreshes inside
   -- NewCache and the package-level default cache are not methods of the table: their locking is the
   -- constructor's and getOrCreateDefaultCache's (searched by the race detector only)
-  let entries := ((ops.filter (fun o => o != "NewCache" && o != "DefaultCache")).map (fun o => "Cache." ++ o)) ++ ["watch.watch"]
+  -- composite operations of the harness are sequences of methods
+  let expand (o : String) : List String :=
+    if o == "Churn" then ["WriteSpec", "RemoveSpec"] else if o == "RefreshList" then ["Refresh", "ListDevices"] else [o]
+  let entries := (((ops.flatMap expand).filter (fun o => o != "NewCache" && o != "DefaultCache")).map (fun o => "Cache." ++ o)) ++ ["watch.watch"]
   let missing := entries.filter (fun e => (progOf e).isNone)
   let unguarded := entries.eraseDups.filter (fun e => match progOf e with | some p => !(guarded false (strip p) && retOK false p) | none => false)
   -- the model predicts: all guarded ⇒ no race, no hang, no mixture (C12_race_free, C12_no_deadlock,
